@@ -2,10 +2,13 @@
 package main
 
 import (
+	"encoding/json"
 	"fmt"
 	"os"
 	"path/filepath"
 	"runtime"
+	"runtime/debug"
+	"strings"
 	"sync"
 	"sync/atomic"
 
@@ -49,6 +52,8 @@ func main() {
 		os.Exit(2)
 	}
 	evid.Replaying = replay != ""
+	curCheck = id
+	defer guardPanic()
 	code := f(tier, replay)
 	cleanupPublicSelf()
 	os.Exit(code)
@@ -110,6 +115,7 @@ func parallelFor(n int, fn func(i int)) {
 		wg.Add(1)
 		go func() {
 			defer wg.Done()
+			defer guardPanic()
 			for {
 				i := int(atomic.AddInt64(&next, 1))
 				if i >= n {
@@ -120,4 +126,53 @@ func parallelFor(n int, fn func(i int)) {
 		}()
 	}
 	wg.Wait()
+}
+
+var (
+	curCheck  string
+	panicOnce sync.Once
+)
+
+// guardPanic (deferred in every goroutine the checks start through parallelFor, and in main) tells a panic that comes out
+// of the library under test - called in-process by several checks - from one of the harness itself. The first is what it
+// is: the library crashed on an input of the explored space, reported as a violation of the running check with the stack
+// as its replay artefact. The second is a defect of the machinery and ends the run with status 2 (not a verdict).
+func guardPanic() {
+	r := recover()
+	if r == nil {
+		return
+	}
+	stack := string(debug.Stack())
+	panicOnce.Do(func() {
+		// the frame that panicked: the first one below the runtime's own
+		origin := ""
+		lines := strings.Split(stack, "\n")
+		for i := 0; i+1 < len(lines); i++ {
+			l := lines[i]
+			if strings.HasPrefix(l, "goroutine ") || strings.HasPrefix(l, "\t") || l == "" {
+				continue
+			}
+			if strings.HasPrefix(l, "runtime.") || strings.HasPrefix(l, "runtime/debug.") || strings.HasPrefix(l, "panic(") || strings.HasPrefix(l, "main.guardPanic") {
+				continue
+			}
+			origin = l
+			break
+		}
+		if strings.Contains(origin, "github.com/elastic/go-seccomp-bpf") {
+			dir := filepath.Join(evid.OutRoot(), "replays", curCheck)
+			os.MkdirAll(dir, 0o755)
+			path := filepath.Join(dir, "library-panic.json")
+			b, _ := json.MarshalIndent(map[string]any{"property": curCheck, "key": curCheck + ":library-panic", "what": fmt.Sprintf("the library panicked while the check was exploring: %v (in %s)", r, origin), "case": map[string]any{"stack": stack}}, "", " ")
+			if !evid.Replaying {
+				os.WriteFile(path, b, 0o644)
+			}
+			fmt.Printf("VIOLATION property=%s replay=%s\n  key=%s:library-panic the library panicked: %v (in %s)\n", curCheck, path, curCheck, r, origin)
+			cleanupPublicSelf()
+			os.Exit(1)
+		}
+		fmt.Fprintf(os.Stderr, "harness panic in check %s (not a property verdict): %v\n%s\n", curCheck, r, stack)
+		cleanupPublicSelf()
+		os.Exit(2)
+	})
+	select {} // another goroutine is already ending the process
 }
